@@ -354,6 +354,7 @@ type env struct {
 	db      *state.StateDB
 	thash   common.Hash
 	initial map[common.Address][]common.Hash // committed accounts and their keys
+	negative string                           // an address seen with a negative balance
 }
 
 func (e *env) dumpNow() *dump {
@@ -368,6 +369,9 @@ func (e *env) dumpNow() *dump {
 	for a, ks := range keys {
 		ad := &acctDump{exists: e.db.Exist(a), nonce: e.db.GetNonce(a), bal: new(big.Int).Set(e.db.GetBalance(a)),
 			code: e.db.GetCodeHash(a), dead: e.db.HasSuicided(a), stor: map[common.Hash]common.Hash{}}
+		if ad.bal.Sign() < 0 && e.negative == "" {
+			e.negative = fmt.Sprintf("%x has balance %v", a, ad.bal)
+		}
 		for _, k := range ks {
 			if v := e.db.GetState(a, k); v != (common.Hash{}) {
 				ad.stor[k] = v
@@ -444,14 +448,21 @@ func diff(pre, post *dump, strict bool, nonceFree *common.Address) string {
 		if x.dead != y.dead {
 			return fmt.Sprintf("suicided flag of %x changed", a)
 		}
-		for k, v := range x.stor {
-			if y.stor[k] != v {
-				return fmt.Sprintf("storage of %x at %x changed (%x -> %x)", a, k, v, y.stor[k])
-			}
+		ks := map[common.Hash]bool{}
+		for k := range x.stor {
+			ks[k] = true
 		}
-		for k, v := range y.stor {
-			if x.stor[k] != v {
-				return fmt.Sprintf("storage of %x at %x changed (%x -> %x)", a, k, x.stor[k], v)
+		for k := range y.stor {
+			ks[k] = true
+		}
+		var sk []common.Hash
+		for k := range ks {
+			sk = append(sk, k)
+		}
+		sort.Slice(sk, func(i, j int) bool { return bytes.Compare(sk[i][:], sk[j][:]) < 0 })
+		for _, k := range sk {
+			if x.stor[k] != y.stor[k] {
+				return fmt.Sprintf("storage of %x at %x changed (%x -> %x)", a, k, x.stor[k], y.stor[k])
 			}
 		}
 	}
@@ -764,6 +775,9 @@ func run(c *Case) (*Result, error) {
 	if want := new(big.Int).Sub(pre.total(), burnt); want.Cmp(post.total()) != 0 {
 		tr.hit(fmt.Sprintf("balance sum not conserved: before %v, after %v, burnt by selfdestruct-to-self %v", pre.total(), post.total(), burnt))
 	}
+	if e.negative != "" {
+		tr.hit("negative balance: " + e.negative)
+	}
 	res.Hits = tr.hits
 	// ---- observation for the model comparison: every live or committed address, symbolically named
 	live := db.VerifC16Live()
@@ -864,7 +878,7 @@ func run(c *Case) (*Result, error) {
 		if !ok {
 			return fmt.Errorf("address %x in the state cannot be derived from the program", a)
 		}
-		o := Obs{A: sym, Exists: db.Exist(a), Nonce: db.GetNonce(a), Bal: db.GetBalance(a).String(), Dead: db.HasSuicided(a)}
+		o := Obs{A: sym, Exists: db.Exist(a), Nonce: db.GetNonce(a), Bal: new(big.Int).Abs(db.GetBalance(a)).String(), Dead: db.HasSuicided(a)}
 		id, ok := codeId[db.GetCodeHash(a)]
 		if !ok {
 			id = 999999
@@ -1247,6 +1261,232 @@ func newCase(r *vf.Rng) *Case {
 	return c
 }
 
+// chainCase: contracts 1..k, each doing a few writes, calling the next one with a
+// random kind (value attached where possible), doing a few more writes and ending
+// in a random way; failures therefore happen at a random level with state-changing
+// work above, below and beside them.
+func chainCase(r *vf.Rng) *Case {
+	g := &gen{r: r, c: &Case{}, cp: &compiler{codes: map[int]*Code{}}, nextId: 1}
+	c := g.c
+	k := 2 + r.Intn(5)
+	g.nc = k
+	origin := Addr{K: "b", N: 0}
+	c.Origin = origin
+	funded := Addr{K: "b", N: 20}
+	g.pool = []Addr{funded, {K: "b", N: 21}, {K: "b", N: 1}, {K: "b", N: uint64(k)}}
+	g.rts = append(g.rts, g.addCode([]Act{{Op: "sstore", K: "0", V: "5"}, {Op: "log", Topics: []string{"1"}, Dlen: 0}}, 0))
+	g.inits = append(g.inits, g.addCode([]Act{{Op: "sstore", K: "1", V: "9"}, {Op: "return", C: g.rts[0]}}, 0))
+	g.inits = append(g.inits, g.addCode([]Act{{Op: "sstore", K: "1", V: "9"}, {Op: "log", Topics: []string{}, Dlen: 3}, {Op: []string{"revert", "invalid", "stop"}[r.Intn(3)]}}, 0))
+	small := func(self uint64) Act {
+		switch r.Intn(7) {
+		case 0, 1:
+			return Act{Op: "sstore", K: fmt.Sprintf("%d", r.Intn(3)), V: g.pickBig([]string{"0", "1", "2", "7"})}
+		case 2:
+			return Act{Op: "log", Topics: []string{fmt.Sprintf("%d", self)}, Dlen: r.Intn(40)}
+		case 3:
+			return Act{Op: "call", Kind: 0, Gas: g.pickBig([]string{"0", "30000"}), To: g.target(), V: g.pickBig([]string{"1", "2", "0"}), Req: r.Chance(15)}
+		case 4:
+			return Act{Op: "create", Two: r.Bool(), Salt: fmt.Sprintf("%d", r.Intn(2)), V: g.pickBig([]string{"0", "1"}), Init: g.inits[r.Intn(len(g.inits))], Req: r.Chance(15)}
+		case 5:
+			if r.Chance(25) {
+				b := Addr{K: "b", N: self}
+				if r.Bool() {
+					b = *g.target()
+				}
+				return Act{Op: "selfdestruct", Ben: &b}
+			}
+		}
+		return Act{Op: "nop", N: 1 + r.Intn(9)}
+	}
+	c.Accts = append(c.Accts, Acct{A: origin, Nonce: uint64(r.Intn(3)), Bal: "1000000000000000000", Code: 0})
+	for i := 1; i <= k; i++ {
+		var acts []Act
+		for j := r.Intn(3); j > 0; j-- {
+			acts = append(acts, small(uint64(i)))
+		}
+		if i < k {
+			next := Addr{K: "b", N: uint64(i + 1)}
+			a := Act{Op: "call", Kind: r.Intn(4), Gas: g.pickBig([]string{"100000000", "100000000", "100000000", "18446744073709551615", "60000", "25000", "9000", "0"}), To: &next, V: "0", Req: r.Chance(30)}
+			if a.Kind < 2 && r.Chance(50) {
+				a.V = g.pickBig([]string{"1", "3", "1000"})
+			}
+			acts = append(acts, a)
+			if r.Chance(25) { // call the same callee again: warm storage, dead accounts, collisions
+				acts = append(acts, a)
+			}
+		}
+		for j := r.Intn(3); j > 0; j-- {
+			acts = append(acts, small(uint64(i)))
+		}
+		switch x := r.Intn(100); {
+		case x < 10:
+			acts = append(acts, Act{Op: "revert"})
+		case x < 18:
+			acts = append(acts, Act{Op: "invalid", Flavor: r.Intn(3)})
+		case x < 24:
+			acts = append(acts, Act{Op: "return"})
+		}
+		id := g.addCode(acts, 0)
+		c.Accts = append(c.Accts, Acct{A: Addr{K: "b", N: uint64(i)}, Nonce: 1, Bal: g.pickBig([]string{"0", "2", "10", "5000", "5000"}), Code: id, Stor: g.storage()})
+	}
+	c.Accts = append(c.Accts, Acct{A: funded, Nonce: 0, Bal: "5", Code: 0})
+	c.To = Addr{K: "b", N: 1}
+	c.Value = g.pickBig([]string{"0", "0", "4"})
+	c.Gas = 10000000
+	return c
+}
+
+// staticCase: a STATICCALL (possibly relayed through other call kinds) into code whose
+// first state-touching action is one the static context must refuse.
+func staticCase(r *vf.Rng) *Case {
+	g := &gen{r: r, c: &Case{}, cp: &compiler{codes: map[int]*Code{}}, nextId: 1}
+	c := g.c
+	origin := Addr{K: "b", N: 0}
+	c.Origin = origin
+	funded := Addr{K: "b", N: 20}
+	missing := Addr{K: "b", N: 21}
+	g.pool = []Addr{funded, missing}
+	rt := g.addCode([]Act{{Op: "sstore", K: "0", V: "5"}}, 0)
+	init := g.addCode([]Act{{Op: "sstore", K: "1", V: "9"}, {Op: "return", C: rt}}, 0)
+	writer := g.addCode([]Act{{Op: "sstore", K: "2", V: fmt.Sprintf("%d", 1+r.Intn(9))}, {Op: "log", Topics: []string{"7"}, Dlen: 1}}, 0)
+	k := 3 + r.Intn(3) // contracts 1..k: relay chain; k = the offender; k+1 = writer library
+	wl := Addr{K: "b", N: uint64(k + 1)}
+	harmless := func() Act {
+		switch r.Intn(4) {
+		case 0:
+			return Act{Op: "call", Kind: 0, Gas: "30000", To: &missing, V: "0"}
+		case 1:
+			return Act{Op: "call", Kind: 3, Gas: "30000", To: &funded, V: "0"}
+		}
+		return Act{Op: "nop", N: 1 + r.Intn(5)}
+	}
+	var off []Act
+	for j := r.Intn(3); j > 0; j-- {
+		off = append(off, harmless())
+	}
+	self := Addr{K: "b", N: uint64(k)}
+	switch r.Intn(9) {
+	case 0:
+		off = append(off, Act{Op: "sstore", K: "0", V: "3"})
+	case 1:
+		off = append(off, Act{Op: "log", Topics: []string{"1", "2"}[:r.Intn(3)], Dlen: r.Intn(5)})
+	case 2:
+		off = append(off, Act{Op: "create", Two: r.Bool(), Salt: "1", V: "0", Init: init})
+	case 3:
+		b := []Addr{self, funded, missing}[r.Intn(3)]
+		off = append(off, Act{Op: "selfdestruct", Ben: &b})
+	case 4, 5:
+		off = append(off, Act{Op: "call", Kind: 0, Gas: g.pickBig([]string{"0", "30000", "100000000"}), To: []*Addr{&funded, &missing, &wl}[r.Intn(3)], V: g.pickBig([]string{"1", "2"})})
+	case 6:
+		off = append(off, Act{Op: "call", Kind: 1, Gas: "100000000", To: &wl, V: g.pickBig([]string{"0", "1"})})
+	case 7:
+		off = append(off, Act{Op: "call", Kind: 2, Gas: "100000000", To: &wl, V: "0"})
+	case 8:
+		off = append(off, Act{Op: "call", Kind: 0, Gas: "100000000", To: &wl, V: "0"})
+	}
+	for j := r.Intn(2); j > 0; j-- {
+		off = append(off, harmless())
+	}
+	c.Accts = append(c.Accts, Acct{A: origin, Nonce: 1, Bal: "1000000000000000000"})
+	staticAt := 1 + r.Intn(k-1)
+	for i := 1; i < k; i++ {
+		next := Addr{K: "b", N: uint64(i + 1)}
+		kind := []int{0, 1, 2, 3}[r.Intn(4)]
+		if i == staticAt {
+			kind = 3
+		}
+		acts := []Act{}
+		if r.Chance(40) {
+			acts = append(acts, harmless())
+		}
+		acts = append(acts, Act{Op: "call", Kind: kind, Gas: "100000000", To: &next, V: "0", Req: r.Chance(20)})
+		if i < staticAt && r.Chance(50) {
+			acts = append(acts, Act{Op: "sstore", K: "3", V: "1"})
+		}
+		id := g.addCode(acts, 0)
+		c.Accts = append(c.Accts, Acct{A: Addr{K: "b", N: uint64(i)}, Nonce: 1, Bal: "50", Code: id, Stor: g.storage()})
+	}
+	c.Accts = append(c.Accts, Acct{A: self, Nonce: 1, Bal: "50", Code: g.addCode(off, 0), Stor: g.storage()})
+	c.Accts = append(c.Accts, Acct{A: wl, Nonce: 1, Bal: "0", Code: writer})
+	c.Accts = append(c.Accts, Acct{A: funded, Nonce: 0, Bal: "5", Code: 0})
+	c.To = Addr{K: "b", N: 1}
+	c.Value = "0"
+	c.Gas = 10000000
+	c.Comment = "static"
+	return c
+}
+
+// createCase: CREATE / CREATE2 whose init code writes and then ends in every possible
+// way (ok, revert, invalid, oversize code, unaffordable code deposit, collision,
+// nested create, selfdestruct), with value attached.
+func createCase(r *vf.Rng) *Case {
+	g := &gen{r: r, c: &Case{}, cp: &compiler{codes: map[int]*Code{}}, nextId: 1}
+	c := g.c
+	origin := Addr{K: "b", N: 0}
+	c.Origin = origin
+	funded := Addr{K: "b", N: 20}
+	a1 := Addr{K: "b", N: 1}
+	g.pool = []Addr{funded, a1}
+	rt := g.addCode([]Act{{Op: "sstore", K: "0", V: "5"}, {Op: "log", Topics: []string{"3"}, Dlen: 2}}, 0)
+	big := g.addCode([]Act{{Op: "nop", N: 3}}, params.MaxCodeSize-6+r.Intn(8))
+	mid := g.addCode([]Act{{Op: "nop", N: 2}}, 200+r.Intn(3000))
+	inner := g.addCode([]Act{{Op: "sstore", K: "2", V: "2"}, {Op: "return", C: rt}}, 0)
+	pre := []Act{{Op: "sstore", K: "1", V: "9"}, {Op: "log", Topics: []string{}, Dlen: 3}}
+	var tail []Act
+	switch r.Intn(12) {
+	case 0:
+		tail = []Act{{Op: "return", C: rt}}
+	case 1:
+		tail = []Act{{Op: "revert"}}
+	case 2:
+		tail = []Act{{Op: "invalid", Flavor: r.Intn(3)}}
+	case 3, 9, 11:
+		tail = []Act{{Op: "return", C: big}}
+	case 4, 10:
+		tail = []Act{{Op: "return", C: mid}}
+	case 5:
+		tail = []Act{{Op: "create", Two: r.Bool(), Salt: "0", V: g.pickBig([]string{"0", "1"}), Init: inner, Req: r.Bool()}, {Op: "return", C: rt}}
+	case 6:
+		b := []Addr{funded, a1}[r.Intn(2)]
+		tail = []Act{{Op: "selfdestruct", Ben: &b}}
+	case 7:
+		tail = []Act{{Op: "call", Kind: 0, Gas: "30000", To: &funded, V: "1"}, {Op: "return", C: rt}}
+	case 8:
+		tail = []Act{}
+	}
+	init := g.addCode(append(pre, tail...), 0)
+	two := r.Bool()
+	cr := Act{Op: "create", Two: two, Salt: "7", V: g.pickBig([]string{"0", "1", "3", "100"}), Init: init, Req: r.Chance(25)}
+	acts := []Act{{Op: "sstore", K: "0", V: "1"}, cr}
+	if r.Chance(40) {
+		acts = append(acts, cr) // CREATE2: collision; CREATE: next nonce
+	}
+	if r.Chance(50) {
+		target := Addr{K: "c", S: &a1, Nonce: 1}
+		if two {
+			target = Addr{K: "c2", S: &a1, Salt: "7", Init: init}
+		}
+		acts = append(acts, Act{Op: "call", Kind: r.Intn(4), Gas: "100000000", To: &target, V: "0"})
+	}
+	if r.Chance(30) {
+		acts = append(acts, Act{Op: []string{"revert", "invalid", "stop"}[r.Intn(3)]})
+	}
+	c.Accts = append(c.Accts, Acct{A: origin, Nonce: 1, Bal: "1000000000000000000"})
+	c.Accts = append(c.Accts, Acct{A: a1, Nonce: 1, Bal: g.pickBig([]string{"0", "2", "50"}), Code: g.addCode(acts, 0), Stor: g.storage()})
+	c.Accts = append(c.Accts, Acct{A: funded, Nonce: 0, Bal: "5"})
+	if r.Chance(20) {
+		c.Accts = append(c.Accts, Acct{A: Addr{K: "c", S: &a1, Nonce: 1}, Nonce: 0, Bal: "77", Stor: [][2]string{{"1", "4"}}})
+	}
+	c.To = a1
+	c.Value = g.pickBig([]string{"0", "5"})
+	c.Gas = 10000000
+	if r.Chance(50) { // just enough for some of the deposit costs
+		c.Gas = uint64(150000 + r.Intn(900000))
+	}
+	c.Comment = "create"
+	return c
+}
+
 // deepCase: a contract that calls itself until the depth limit (1024) stops it.
 func deepCase(r *vf.Rng) *Case {
 	c := &Case{Origin: Addr{K: "b", N: 0}, To: Addr{K: "b", N: 1}, Value: "0", Gas: 1 << 62, Comment: "deep recursion"}
@@ -1331,8 +1571,10 @@ func genCmd(seed uint64, n int, outDir, corpusDir string) {
 		calls := 0
 		for k, v := range rs.Stats {
 			if k == "max_depth" {
-				if v > res.Distribution["max_depth"] {
-					res.Distribution["max_depth"] = v
+				if v >= 1025 {
+					res.Count("cases reaching the depth limit")
+				} else if v >= 4 {
+					res.Count("cases nesting 4 or more frames")
 				}
 				continue
 			}
@@ -1363,7 +1605,17 @@ func genCmd(seed uint64, n int, outDir, corpusDir string) {
 		add(deepCase(r))
 	}
 	for count < n {
-		c := newCase(r)
+		var c *Case
+		switch x := r.Intn(100); {
+		case x < 40:
+			c = chainCase(r)
+		case x < 52:
+			c = staticCase(r)
+		case x < 64:
+			c = createCase(r)
+		default:
+			c = newCase(r)
+		}
 		// measure, then choose the gas allotment
 		rs, err := run(c)
 		if err != nil {
@@ -1371,7 +1623,19 @@ func genCmd(seed uint64, n int, outDir, corpusDir string) {
 			continue
 		}
 		used := c.Gas - rs.Gas
-		switch x := r.Intn(100); {
+		x0 := r.Intn(100)
+		if c.Comment != "" && r.Chance(60) {
+			x0 = 0
+		}
+		if c.Comment == "create" && r.Chance(35) && used > 0 {
+			lim := used
+			if lim > 700000 {
+				lim = 700000
+			}
+			c.Gas = used - uint64(r.Intn(int(lim)))
+			x0 = 0
+		}
+		switch x := x0; {
 		case x < 60:
 		case x < 78:
 			c.Gas = uint64(r.Intn(int(used) + 2))
